@@ -21,7 +21,7 @@ RULE = (
     "ret_arr/qalloc/qfree/wait_*: straight-line blocks, counted loops, forward conditionals/jumps, consecutive labels, "
     "trailing label, unused labels; literals in every read position incl. array index and slice bounds; optional initial "
     "register valuation; rendered to text with DEFINE macros (prefix-overlapping names), bracket arguments, comments and "
-    "also lowered to ICmd/BranchLabel IR.  Non-trivial = has a label, a materialised literal and a taken branch; "
+    "also lowered to ICmd/BranchLabel IR; assembled with the default flavour argument or an explicit vanilla / NV / REIDS flavour object.  Non-trivial = has a label, a materialised literal and a taken branch; "
     "distinct by AST hash"
 )
 ASSUMPTIONS = [
@@ -278,7 +278,9 @@ def st_program(draw, max_blocks=6):
     if draw(st.integers(0, 2)) == 0:
         prog.extend(block(0))
     style = draw(st.lists(st.integers(0, 99), min_size=30, max_size=30))
-    return {"prog": prog, "init": init_regs, "unit": 3, "style": style}
+    # the programs use core instructions only, so every flavour assembles them alike; None = the default (what the SDK passes)
+    flav = draw(st.sampled_from([None, None, "vanilla", "nv", "reids"]))
+    return {"prog": prog, "init": init_regs, "unit": 3, "style": style, "flavour": flav}
 
 
 def _set_tmp(prog, reg, value):
@@ -574,10 +576,15 @@ def check(case) -> Dict[str, Any]:
     results = {}
     for route in ("text", "ir"):
         try:
+            fkw = {}
+            if case.get("flavour"):
+                from netqasm.lang.instr import flavour as _fl
+
+                fkw["flavour"] = {"vanilla": _fl.VanillaFlavour, "nv": _fl.NVFlavour, "reids": _fl.REIDSFlavour}[case["flavour"]]()
             if route == "text":
-                sub = parse_text_subroutine(text)
+                sub = parse_text_subroutine(text, **fkw)
             else:
-                sub = assemble_subroutine(lower_ir(case))
+                sub = assemble_subroutine(lower_ir(case), **fkw)
         except RuntimeError as e:
             if "no registers left" in str(e):
                 info["rejected"] = "no-registers-left"
@@ -633,6 +640,8 @@ def shard(ctx: Ctx) -> None:
             labels.append("bracket-args")
         if case["init"]:
             labels.append("initial-valuation")
+        if case.get("flavour"):
+            labels.append("explicit-flavour:" + case["flavour"])
         if any(isinstance(o, dict) and isinstance(o.get("idx"), int) for i in prog if i[0] != "label" for o in i[1]):
             labels.append("literal-index")
         if any(isinstance(o, dict) and "start" in o and (isinstance(o["start"], int) or isinstance(o["stop"], int)) for i in prog if i[0] != "label" for o in i[1]):
